@@ -1,7 +1,7 @@
 (** C15 — property theorems only.  Each is closed by [exact] of a lemma in Proofs*.v and followed by
     [Print Assumptions]. *)
 From Coq Require Import Sorting.Permutation.
-From V Require Import Base.Util Gql.Ast C15.Model C15.Spec C15.Proofs1 C15.Proofs2 C15.Proofs3 C15.Proofs4 C15.Proofs5 C15.Proofs C15.CheckBridge C15.Corr C15.CorrProofs.
+From V Require Import Base.Util Gql.Ast C15.Model C15.Spec C15.Proofs1 C15.Proofs2 C15.Proofs3 C15.Proofs4 C15.Proofs5 C15.Proofs C15.Reify C15.CheckBridge C15.CheckSim C15.CheckSim2 C15.CheckRespects C15.CheckExamples C15.Corr C15.CorrProofs.
 
 (** For every schema model M satisfying the guard, every key style and with or without the introspection types in
     the result: the JSON route accepts the standard introspection result of M, and the Schema it builds is
@@ -117,6 +117,60 @@ Theorem C15_root_decision_agrees : forall st meta M D,
 Proof. exact root_decision_agrees. Qed.
 Print Assumptions C15_root_decision_agrees.
 
+(** Reification: every Schema whose tables are keyed by definition name (both front ends guarantee it) is, on every
+    observation of [schema_equiv_on] and on every name, the Schema of the document [doc_of_schema sc] — which therefore
+    stands for [sc] wherever a component takes a schema document (C03's checker model does). *)
+Theorem C15_reify_equiv : forall sc,
+  keys_match sc -> dir_keys_match sc ->
+  schema_equiv_on (fun _ => true) (ast_to_type_system (doc_of_schema sc)) sc.
+Proof. exact reify_equiv. Qed.
+Print Assumptions C15_reify_equiv.
+
+(** "Lookup-only" simulation, literal / argument / directive layer: C03's check_value reads the schema documents only
+    through get_type on compared names; related lookups give the same diagnostics, message for message. *)
+Theorem C15_check_value_respects_lookups : forall S1 S2 P vars,
+  (forall n, P n = true -> orel td_rel (V.C03.Model.get_type S1 n) (V.C03.Model.get_type S2 n)) ->
+  (forall n d p nm ds fs kw, P n = true -> V.C03.Model.get_type S1 n = Some (TDInput d p nm ds fs kw) -> inputs_ok P fs = true) ->
+  forall v t1 t2, ty_rel t1 t2 -> ty_ok P t1 = true ->
+    map V.C03.Model.e_msg (V.C03.Model.check_value S1 vars v t1) = map V.C03.Model.e_msg (V.C03.Model.check_value S2 vars v t2).
+Proof. exact check_value_rel. Qed.
+Print Assumptions C15_check_value_respects_lookups.
+
+(** check_respects_equiv, general form: two schema documents whose Schemas are [schema_equiv_on P], the first closed
+    under "mentions" on P, types outside P implementing nothing, give the same verdict of C03's checker model on every
+    operation document that mentions compared names only.  (Below the root decision the lists of messages are equal;
+    at the root an unavailable operation kind gets one diagnostic on each side, not necessarily the same one.) *)
+Theorem C15_check_respects_equiv_docs : forall S1 S2 P D,
+  schema_equiv_on P (ast_to_type_system S1) (ast_to_type_system S2) ->
+  doc_closed_b P S1 = true -> implements_nothing_b P S1 = true -> implements_nothing_b P S2 = true ->
+  P V.C03.Model.str_String = true ->
+  (forall o n, root_type (ast_to_type_system S1) o = Some n -> P n = true) ->
+  opdoc_ok P D = true ->
+  (V.C03.Model.check_operation_document S1 D = [] <-> V.C03.Model.check_operation_document S2 D = []).
+Proof. exact check_respects_equiv_docs. Qed.
+Print Assumptions C15_check_respects_equiv_docs.
+
+(** check_respects_equiv for the two routes: under the hypotheses of C15_routes_agree and the computable guard
+    [sim_guard_b], the checker model accepts exactly the same operation documents (over the compared names: no unlisted
+    built-in scalar, no introspection type) on the SDL document and on the Schema the JSON route built. *)
+Theorem C15_check_respects_equiv : forall st meta M Dsdl,
+  model_ok M = true -> doc_equiv Dsdl (sdl_doc M) -> parsed_positions Dsdl ->
+  exists Sj, json_route (introspect st meta M) = Ok Sj /\
+    (sim_guard_b (vis_of M) Dsdl (doc_of_schema Sj) = true ->
+     forall D, opdoc_ok (vis_of M) D = true ->
+       (V.C03.Model.check_operation_document Dsdl D = [] <-> V.C03.Model.check_operation_document (doc_of_schema Sj) D = [])).
+Proof. exact check_respects_equiv. Qed.
+Print Assumptions C15_check_respects_equiv.
+
+(** ... established for every generated case on which the model reproduces the implementation ([agree] evaluates the guard). *)
+Theorem C15_certified_check : forall st meta M D J out_sdl out_json docs,
+  agree (CRoutes false true st meta [] M D J out_sdl out_json docs) = true ->
+  exists Sj, out_json = Ok Sj /\
+    forall doc, opdoc_ok (vis_of M) doc = true ->
+      (V.C03.Model.check_operation_document D doc = [] <-> V.C03.Model.check_operation_document (doc_of_schema Sj) doc = []).
+Proof. exact certified_check. Qed.
+Print Assumptions C15_certified_check.
+
 (** The boolean comparison the correspondence run evaluates on the implementation's two Schema values
     (Corr.holds on a CRoutes case) implies the equivalence stated above. *)
 Theorem C15_schema_equiv_b_sound : forall vis a b, schema_equiv_b vis a b = true -> schema_equiv_on vis a b.
@@ -132,8 +186,8 @@ Print Assumptions C15_doc_equiv_b_sound.
     the implementation produced for SDL document D and JSON tree J, J is the introspection result of M, D says what the
     SDL of M says, M satisfies the guard), then the implementation's own two outputs are equivalent — by
     C15_routes_agree, not by comparing them. *)
-Theorem C15_certified_case : forall st meta M D J out_sdl out_json,
-  agree (CRoutes false true st meta [] M D J out_sdl out_json) = true ->
+Theorem C15_certified_case : forall st meta M D J out_sdl out_json docs,
+  agree (CRoutes false true st meta [] M D J out_sdl out_json docs) = true ->
   exists Sj, out_json = Ok Sj /\ schema_equiv_on (vis_of M) Sj out_sdl.
 Proof. exact certified_case. Qed.
 Print Assumptions C15_certified_case.
